@@ -759,7 +759,7 @@ pub fn execute(sc: &K17) -> Outcome {
         // (an error message, a non-zero status, the terminal as it was found) or go on without
         // the airports — it must not crash. Going on is judged like every other run below.
         let r = &p.run;
-        if let Some(loc) = panic_location(&r.stderr) {
+        if let Some(loc) = super::main_panic_location(&r.stderr) {
             out.violate(format!("C17:invalid-option-value-panics:{loc}"), format!("radar --airports <{kind}> panicked instead of reporting the unusable file (exit status {:?}, terminal restored: {:?}, mouse reporting left on: {:?})\nstderr:\n{}", r.code, r.termios_restored, p.vt.modes.mouse_modes_on, r.stderr.lines().take(6).collect::<Vec<_>>().join("\n")));
             return out;
         }
